@@ -9,6 +9,7 @@ CONSTANTS
   Typed = TRUE
   Ops = {"ConstructEmpty", "ConstructH", "MoveConstruct", "AddHandle", "AddFill", "AddTo", "MergeShl", "MoveAssign", "Pop", "Clear", "Destroy", "CoAwait", "Pause", "Read", "ConstructSelf", "AddSelf", "Yield", "ParResume", "CreateSP"}
   Fixed = TRUE
+  Ctxs = {"flow", "unwind", "dtor", "catch"}
   Targets = {3, 4, 6, 7, 12, 13, 24, 25}
 INVARIANTS TypeOK RepOK NoDoubleResume Conservation NoLeak
 PROPERTIES InlineNoAlloc MovedFromIsEmpty EmptyResumesNothing ValuePreserved ReadsAgree ResumeOrder QueueFIFO
